@@ -174,13 +174,36 @@ func (m *Manager) History() ([32]types.BlockID, error) {
 	}
 	var history [32]types.BlockID
 	for i := range history {
-		index, ok := m.store.BestIndex(histHeight(i))
+		h := histHeight(i)
+		index, ok := m.store.BestIndex(h)
 		if !ok {
+			// a store that was initialized at a checkpoint has no index below
+			// it: end the history with the lowest block we do have (as a full
+			// store ends it with genesis), otherwise a fork point between the
+			// checkpoint and the last sampled height is never found
+			if i > 0 {
+				lo, hi := h, histHeight(i-1) // lo is missing, hi is present
+				for lo+1 < hi {
+					if mid := lo + (hi-lo)/2; m.hasBestIndex(mid) {
+						hi = mid
+					} else {
+						lo = mid
+					}
+				}
+				if index, ok := m.store.BestIndex(hi); ok && index.ID != history[i-1] {
+					history[i] = index.ID
+				}
+			}
 			break
 		}
 		history[i] = index.ID
 	}
 	return history, nil
+}
+
+func (m *Manager) hasBestIndex(height uint64) bool {
+	_, ok := m.store.BestIndex(height)
+	return ok
 }
 
 // Headers returns up to max consecutive headers starting from supplied index,
